@@ -28,6 +28,10 @@ use std::collections::BTreeMap;
 use std::io::Cursor;
 use vcore::{json, Ctx, Stats, Tier};
 
+#[path = "c20/edits.rs"]
+mod edits;
+#[path = "c20/io.rs"]
+mod io;
 #[path = "c20/refenc.rs"]
 mod refenc;
 #[path = "c20/strip.rs"]
@@ -468,14 +472,36 @@ fn check_value(ctx: &Ctx, acc: &mut Acc, case: &values::Case) {
 	};
 	let rp = match cfmodel::parse(&reference) {
 		Ok(p) => p,
+		Err(_) if case.optional => {
+			// a value outside what the strict parser takes for a well-formed file (an attribute in a foreign place whose
+			// body breaks that place's rules, a table grown past a limit of its owner): not in the statement's domain
+			acc.st.outcome("optional-value-outside-the-strict-parsers-domain-skipped");
+			return;
+		},
 		Err(e) => vcore::machinery_fail(&format!("{label}: the strict parser rejects the reference encoding of a generated value (generator or reference encoder wrong): {e}")),
 	};
 	acc.value_census.class(v);
 	*acc.focus.entry(focus).or_insert(0) += 1;
 	acc.st.eval();
 	acc.st.distinct.add(&reference);
+	// DEFECT A (known finding) strikes exactly when an attribute is named through a pool entry that comes after a
+	// Long/Double: the crate looks the JVMS index up at vector position index-1
+	let first_two_slot = {
+		let mut jvms_index = 1usize;
+		let mut found = None;
+		for e in &v.constant_pool {
+			if refenc::two_slot(e) {
+				found = Some(jvms_index);
+				break;
+			}
+			jvms_index += 1;
+		}
+		found
+	};
+	let name_after_two_slot = first_two_slot.is_some_and(|t| rp.attribute_spans.iter().any(|s| be(&reference, s.start, 2).is_some_and(|i| i as usize > t)));
+	let two_slot_cause = case.pool == PoolVariant::TwoSlotFirst || name_after_two_slot;
 	let cause_key = |kind: &str| -> String {
-		if case.pool == PoolVariant::TwoSlotFirst { format!("read-back:pool-with-two-slot-entry:{kind}") } else { format!("read-back:{focus}:{kind}") }
+		if two_slot_cause { format!("read-back:pool-with-two-slot-entry:{kind}") } else { format!("read-back:{focus}:{kind}") }
 	};
 
 	let written = vcore::guard(|| {
@@ -513,7 +539,7 @@ fn check_value(ctx: &Ctx, acc: &mut Acc, case: &values::Case) {
 	match back {
 		Err(p) => {
 			acc.st.outcome("value-read-back-panicked");
-			ctx.diff(&if case.pool == PoolVariant::TwoSlotFirst { cause_key("panic") } else { format!("panic@{}", p.file()) }, &format!("reading back the written value panicked at {}: {}", p.site, p.msg), replay);
+			ctx.diff(&if two_slot_cause { cause_key("panic") } else { format!("panic@{}", p.file()) }, &format!("reading back the written value panicked at {}: {}", p.site, p.msg), replay);
 		},
 		Ok((Err(e), _)) => {
 			acc.st.outcome("value-read-back-refused");
